@@ -50,3 +50,16 @@ Proof. exact backbone_amide_any_residue. Qed.
 Theorem C17_no_table_entry_for_a_backbone_N :
   forallb (fun kv => negb (String.eqb (substring 3 2 (fst kv)) "-N" && Nat.eqb (String.length (fst kv)) 5)) (pi_sidechains ++ standard_charges) = true.
 Proof. exact no_residue_keyed_backbone_N. Qed.
+
+(* the X-H bond-length table of the CURRENT source (re-extracted, in 1/100 A) is the tabulated one: C 1.09, N 1.01, O 0.96, F 0.92, Cl 1.27, Br 1.41,
+   I 1.61, S 1.35 - no entry missing, none added, none changed *)
+Import ListNotations.
+Definition tabulated_centi : list (string * Z) :=
+  [("C"%string, 109%Z); ("N"%string, 101%Z); ("O"%string, 96%Z); ("F"%string, 92%Z); ("Cl"%string, 127%Z); ("Br"%string, 141%Z);
+   ("I"%string, 161%Z); ("S"%string, 135%Z)].
+Definition same_entries (a b : list (string * Z)) : bool :=
+  forallb (fun p => existsb (fun q => String.eqb (fst p) (fst q) && Z.eqb (snd p) (snd q)) b) a
+  && forallb (fun p => existsb (fun q => String.eqb (fst p) (fst q) && Z.eqb (snd p) (snd q)) a) b
+  && Nat.eqb (List.length a) (List.length b).
+Theorem C17_bond_length_table_is_the_tabulated_one : same_entries bond_lengths_centi tabulated_centi = true.
+Proof. vm_compute. reflexivity. Qed.
